@@ -139,8 +139,8 @@ def main():
         "version": 1,
         "setup_cmd": "./check --setup",
         "hooks": {
-            "guard": "rustc cfg `zlink_verif` (exposes zlink_core::__verif::json_to_slice) and `zlink_verif_small_buf` (MAX_BUFFER_SIZE = 83*256 bytes, used only by the C17 build; with zlink_verif also exposes the compiled-in limit)",
-            "enable": "RUSTFLAGS=\"--cfg zlink_verif\" (plus \"--cfg zlink_verif_small_buf\" into a separate target dir for C17); set by ./check for every harness build",
+            "guard": "rustc cfg `zlink_verif` (exposes zlink_core::__verif::json_to_slice) and `zlink_verif_small_buf` (MAX_BUFFER_SIZE = 83*256 bytes, used only by the second (small-limit) build of C17 and of the oversized-message lane of C09; with zlink_verif also exposes the compiled-in limit)",
+            "enable": "RUSTFLAGS=\"--cfg zlink_verif\" (plus \"--cfg zlink_verif_small_buf\" into a separate target dir for C17 and C09); set by ./check for every harness build",
             "baseline_off_cmd": BASELINE,
             "source_commits": [c.split()[0] for c in hooks_commits],
             "add_only": True,
